@@ -203,9 +203,95 @@ def r07_4(run, model):
            witness="fn empty[T]() -> List[T] called at List[int32] and List[string] yields one `empty` returning List__T")
 
 
+def r07_5(run, model):
+    run.rule("R07.5", "memoise before recursing (termination on recursive types): in a caching instantiator (lookup with early return, later insert) "
+                      "every call that can re-enter the function - directly or through a mutually recursive helper of the same impl - is dominated by "
+                      "the insert into the cache")
+    n = 0
+    impls = {}
+    for f in model.fns(MONO):
+        if f.body is not None and f.impl:
+            impls.setdefault(f.impl, {})[f.name] = f
+    for impl, fns in impls.items():
+        calls = {name: {S.callee_name(c) for c in S.calls(f.body) if c["k"] == "MethodCall" and S.is_path(c["recv"], "self") and S.callee_name(c) in fns} for name, f in fns.items()}
+
+        def reaches(a, b, seen=None):
+            seen = seen or set()
+            if a in seen:
+                return False
+            seen.add(a)
+            return b in calls[a] or any(reaches(x, b, seen) for x in calls[a])
+
+        for name, f in fns.items():
+            body = f.body
+            gets = [c for c in S.walk(body) if c["k"] == "MethodCall" and c["method"] == "get" and c["recv"]["k"] == "Field" and S.is_path(c["recv"]["base"], "self")]
+            if not gets:
+                continue
+            memo = gets[0]["recv"]["member"]
+            inserts = [c for c in S.walk(body) if c["k"] == "MethodCall" and c["method"] == "insert" and c["recv"]["k"] == "Field" and c["recv"]["member"] == memo and S.is_path(c["recv"]["base"], "self")]
+            if not inserts:
+                continue
+            rec = [c for c in S.walk(body) if c["k"] == "MethodCall" and S.is_path(c["recv"], "self") and S.callee_name(c) in fns
+                   and (S.callee_name(c) == name or reaches(S.callee_name(c), name))]
+            if not rec:
+                continue
+            n += 1
+            par = S.Parents(body)
+            bad = []
+            for c in rec:
+                anc = [a for a in par.ancestors(c) if a["k"] == "Block"] + [body]
+                dom = False
+                for ins in inserts:
+                    if (ins["sp"][0], ins["sp"][1]) >= (c["sp"][0], c["sp"][1]):
+                        continue
+                    # the insert statement must sit directly in a block that encloses the recursive call
+                    st = ins
+                    while par.parent(st) is not None and par.parent(st)["k"] != "Block":
+                        st = par.parent(st)
+                    blk = par.parent(st) or body
+                    if any(blk is a for a in anc):
+                        dom = True
+                if not dom:
+                    bad.append(c["sp"][0])
+            run.ob("R07.5", f"{impl}::{name}|cache `{memo}` filled before re-entrant calls", not bad, site(MONO, f.node["sp"]),
+                   f"{len(rec)} re-entrant calls; not dominated by self.{memo}.insert: lines {bad or 'none'}",
+                   witness="struct Tree[T] { label: T, kids: Vec[Tree[T]] }: instantiating Tree[int32] re-enters itself before the name is cached and the compiler overflows its stack")
+    run.floor("caching instantiators with re-entrant calls", n, 1)
+
+
+def r07_6(run, model):
+    run.rule("R07.6", "the specialiser honours the typer's choice of callee: in mono_expr's call arm the function the call names is looked up first "
+                      "(orig_fns.get(func_name)); the generic inherent-method index is only a fallback (inside or_else)")
+    f = model.fn("mono_expr", MONO)
+    found = False
+    for l in S.find(f.body, "Local"):
+        if l["pat"]["k"] == "PIdent" and l["pat"]["name"] == "callee_opt" and l.get("init") is not None:
+            found = True
+            chain, base = [], l["init"]
+            e = l["init"]
+            order = []
+            while e["k"] == "MethodCall":
+                order.append((e["method"], e))
+                e = e["recv"]
+            order.reverse()
+            head = S.norm_ws(run.facts.text(MONO, e["sp"])) if e["k"] != "MethodCall" else ""
+            first = order[0] if order else None
+            first_txt = S.norm_ws(run.facts.text(MONO, first[1]["sp"])) if first else ""
+            exact_first = first is not None and first[0] == "get" and first_txt.startswith("ctx.orig_fns.get(func_name)")
+            idx_in_fallback = any(m == "or_else" and "inherent_method_index" in S.norm_ws(run.facts.text(MONO, n_["args"][0]["sp"])) for m, n_ in order if n_["args"])
+            ok = exact_first and (idx_in_fallback or "inherent_method_index" not in S.norm_ws(run.facts.text(MONO, l["init"]["sp"])))
+            run.ob("R07.6", "mono_expr|exact callee before generic index", ok, site(MONO, l["sp"]),
+                   "lookup chain: " + " . ".join(m for m, _ in order) + ("" if ok else " - the generic index is consulted before the exact name"),
+                   witness="impl[T] Box[T] { fn describe } and impl Box[int32] { fn describe }: a.describe() on Box[int32] runs an instance of the generic method although the typer chose the concrete one")
+    if not found:
+        raise AnalysisIncomplete("mono_expr: callee lookup not found")
+
+
 def run(run, model):
     run.try_rule(r07_1, model)
     run.try_rule(r07_2, model)
     run.try_rule(r07_3, model)
     run.try_rule(r07_4, model)
+    run.try_rule(r07_5, model)
+    run.try_rule(r07_6, model)
     run.assume("after the typer no TVar remains and TParam occurs only in generic definitions (C03 clauses)")
